@@ -90,7 +90,8 @@ def yaml_load(stream):
     except ValueError as ex:  # scalars resolved as int/float that fail to be constructed, e.g. "0x_"
         raise yaml.YAMLError(str(ex)) from ex
     if isinstance(value, dict) and value and all(v is None for v in value.values()):
-        if len(value) == 1 and stream.strip() == next(iter(value.keys())) + ":":
+        key = next(iter(value.keys()))
+        if len(value) == 1 and isinstance(key, str) and stream.strip() == key + ":":
             value = stream
         else:
             keys = set(stream.strip(" {}").replace(" ", "").split(","))
